@@ -461,9 +461,109 @@ fn cache_histories(run: &Run, bits: usize, depth: usize, n_inputs: usize, tape: 
     run.sample(json!({"cache_histories": {"bits": bits, "prefixes": np, "history_len": depth, "adversarial_history_len": adv_depth, "inputs": n_inputs, "caches": ["HashMapCache", "RingBufferCache(1..4)", "adversarial(hit/miss choice per get)"]}}));
 }
 
+/// (3) Object-reuse histories. The library documents `Idpf` as a stateless description of the value
+/// types, but it is an object that applications keep for a long time (one per aggregator process).
+/// Every history of `len` sessions drawn from {ctx A, ctx B} x {nonce N1, N2} x {input X, Y} is run on
+/// ONE long-lived `Idpf` object per party (client, aggregator 0, aggregator 1) — gen on the client's
+/// object, then evals of every prefix on the aggregators' objects — and every public share, key and
+/// output share is compared with what FRESH objects produce for that session alone (state reached
+/// through a history vs. state reached from the initial state).
+fn reuse_histories<VI: Val, VL: Val>(run: &Run, tname: &str, bits: usize, len: usize, tape: &Tape) {
+    let sessions: Vec<(Vec<u8>, [u8; 16], Vec<bool>)> = {
+        let mut v = vec![];
+        for c in 0..2u8 {
+            for n in 0..2u8 {
+                for x in 0..2u8 {
+                    let ctx: Vec<u8> = if c == 0 { b"application A".to_vec() } else { b"application B".to_vec() };
+                    let nonce: [u8; 16] = tape.array(40 + n as u64);
+                    let input: Vec<bool> = (0..bits).map(|i| (i as u8 + x) % 2 == 0).collect();
+                    v.push((ctx, nonce, input));
+                }
+            }
+        }
+        v
+    };
+    let random: [[u8; 16]; 2] = [tape.array(50), tape.array(51)];
+    let prefixes: Vec<Vec<bool>> = (1..=bits).flat_map(|l| (0..(1u32 << l)).map(move |v| (0..l).map(|k| (v >> (l - 1 - k)) & 1 == 1).collect::<Vec<bool>>())).collect();
+    let inner: Vec<VI> = (0..bits - 1).map(|l| VI::make(7 + l as u64)).collect();
+    let leaf = VL::make(99);
+    // reference: fresh objects, one session at a time
+    #[allow(clippy::type_complexity)]
+    let fresh: Vec<(Vec<u8>, [Seed<16>; 2], Vec<[Vec<u8>; 2]>)> = sessions
+        .iter()
+        .map(|(ctx, nonce, input)| {
+            let (ps, keys) = gen::<VI, VL>(input, &inner, &leaf, ctx, nonce, &random).expect("fresh gen");
+            let outs = prefixes.iter().map(|p| [0usize, 1].map(|a| enc_out(&eval::<VI, VL>(a, &ps, &keys[a], p, ctx, nonce, &mut NoCache::new()).expect("fresh eval")))).collect();
+            (ps.get_encoded().unwrap(), keys, outs)
+        })
+        .collect();
+    let ns = sessions.len();
+    let total = (ns as u64).pow(len as u32);
+    par::for_each(total, |hix| {
+        let mut h = vec![];
+        let mut x = hix;
+        for _ in 0..len {
+            h.push((x % ns as u64) as usize);
+            x /= ns as u64;
+        }
+        let client = Idpf::<VI, VL>::new((), ());
+        let aggs = [Idpf::<VI, VL>::new((), ()), Idpf::<VI, VL>::new((), ())];
+        for (step, &si) in h.iter().enumerate() {
+            let (ctx, nonce, input) = &sessions[si];
+            run.count("transitions", 1);
+            run.count("evaluations", 1);
+            let key = format!("reuse/{tname}/bits={bits}");
+            let case = || json!({"part": "reuse", "types": tname, "bits": bits, "history": h, "step": step});
+            let (ps, keys) = match catch(|| gen_with_random(&client, &IdpfInput::from_bools(input), inner.clone(), leaf.clone(), ctx, nonce, &random)) {
+                Ok(Ok(x)) => x,
+                other => {
+                    run.fail(&format!("{key}/gen"), &format!("Idpf<{tname}>(bits={bits}): gen on a long-lived object failed at step {step} of session history {:?}: {:?}", h, other.map(|r| r.map(|_| ()).map_err(|e| e.to_string()))), case());
+                    return;
+                }
+            };
+            if ps.get_encoded().unwrap() != fresh[si].0 || keys != fresh[si].1 {
+                run.fail(&format!("{key}/gen_differs"), &format!("Idpf<{tname}>(bits={bits}): keys/public share generated by a long-lived Idpf object at step {step} of session history {:?} differ from those of a fresh object", h), case());
+                return;
+            }
+            for (pi, p) in prefixes.iter().enumerate() {
+                for a in 0..2 {
+                    let r = match catch(|| aggs[a].eval(a, &ps, &keys[a], &IdpfInput::from_bools(p), ctx, nonce, &mut NoCache::new())) {
+                        Ok(Ok(x)) => enc_out(&x),
+                        other => {
+                            run.fail(&format!("{key}/eval"), &format!("Idpf<{tname}>(bits={bits}): eval on a long-lived object failed at step {step} of session history {:?}: {:?}", h, other.map(|r| r.map(|_| ()).map_err(|e| e.to_string()))), case());
+                            return;
+                        }
+                    };
+                    if r != fresh[si].2[pi][a] {
+                        run.fail(&format!("{key}/eval_differs"), &format!("Idpf<{tname}>(bits={bits}): aggregator {a}'s evaluation of prefix {:?} on a long-lived Idpf object at step {step} of session history {:?} (sessions = ctx x nonce x input) differs from a fresh object's", p, h), case());
+                        return;
+                    }
+                }
+            }
+        }
+        run.count("states", 1);
+    });
+    run.distinct(fnv(format!("reuse/{tname}/{bits}/{len}").as_bytes()));
+}
+
+fn enc_out<VI: Val, VL: Val>(o: &IdpfOutputShare<VI, VL>) -> Vec<u8> {
+    match o {
+        IdpfOutputShare::Inner(v) => {
+            let mut b = vec![0u8];
+            v.encode(&mut b).unwrap();
+            b
+        }
+        IdpfOutputShare::Leaf(v) => {
+            let mut b = vec![1u8];
+            v.encode(&mut b).unwrap();
+            b
+        }
+    }
+}
+
 fn main() {
     let run = Run::from_args("C06", Level::ModelChecking);
-    run.rule("(1) all inputs x all prefixes of all lengths for bits<=4 (thorough 5) x value types {Poplar1IdpfValue<Field64>/<Field255>, Field64/Field255, FieldV17 with EVERY programmed value for bits<=3} x tapes, public share through its codec; long inputs (320, 4096 bits) on-path and siblings; (2) states = evaluation histories sharing one cache (all prefix sequences of length <=3, thorough 4 for bits 2), caches HashMapCache, RingBufferCache(1..4), adversarial cache with a hit/miss choice at every get on a present key (all patterns); invariant: every result equals the uncached one and every inserted/returned node state equals the from-root state. distinct = (value type, bits, input, tape, assignment) reports and (bits, input, aggregator) cache subjects");
+    run.rule("(1) all inputs x all prefixes of all lengths for bits<=4 (thorough 5) x value types {Poplar1IdpfValue<Field64>/<Field255>, Field64/Field255, FieldV17 with EVERY programmed value for bits<=3} x tapes, public share through its codec; long inputs (320, 4096 bits) on-path and siblings; (2) states = evaluation histories sharing one cache (all prefix sequences of length <=3, thorough 4 for bits 2), caches HashMapCache, RingBufferCache(1..4), adversarial cache with a hit/miss choice at every get on a present key (all patterns); invariant: every result equals the uncached one and every inserted/returned node state equals the from-root state. (3) object-reuse histories: every sequence of 3 (thorough 4) sessions from {2 ctx} x {2 nonces} x {2 inputs} on one long-lived Idpf object per party vs fresh objects per session (keys, public share and every prefix evaluation byte-identical). distinct = (value type, bits, input, tape, assignment) reports and (bits, input, aggregator) cache subjects");
     let q = run.quick();
     let tapes = tape_alphabet(run.seed, if q { 1 } else { 5 });
     for bits in 1..=if q { 4 } else { 5 } {
@@ -489,6 +589,12 @@ fn main() {
         cache_histories(&run, 5, 2, 4, &tapes[2].1, 2);
     }
     eprintln!("[{:.1}s] caches", run.elapsed());
+    // (3) long-lived objects: all session histories of length 3 (thorough 4) over 8 sessions
+    let hl = if q { 3 } else { 4 };
+    reuse_histories::<Poplar1IdpfValue<Field64>, Poplar1IdpfValue<Field255>>(&run, "Poplar1IdpfValue", 2, hl, &tapes[0].1);
+    reuse_histories::<Poplar1IdpfValue<Field64>, Poplar1IdpfValue<Field255>>(&run, "Poplar1IdpfValue", 3, 2, &tapes[0].1);
+    reuse_histories::<Field64, Field255>(&run, "Field64/Field255", 2, 2, &tapes[0].1);
+    eprintln!("[{:.1}s] object reuse", run.elapsed());
     run.exhaustive(true);
     run.finish();
 }
